@@ -421,6 +421,35 @@ def bounded(tier, seed):
                     return 'level list %r expected %r' % (zs.tolist(), levels)
                 return None
             run.case('C20:arlpackedbit reads a reference-encoded file', (nt, step_h, nz, ny, nx), t_file)
+            if ci == 0:
+                # upper levels whose variable lists have the same LENGTH but differ (another order, another variable): every field
+                # comes back under its own name, level by level
+                lay = [['TEMP', 'UWND'], ['UWND', 'TEMP'], ['TEMP', 'RELH']]
+                fields2 = {}
+                base_, sc_ = {'PRSS': 1000., 'TEMP': 280., 'UWND': 0., 'RELH': 50.}, {'PRSS': 30., 'TEMP': 4., 'UWND': .02, 'RELH': 10.}
+                for ti in range(nt):
+                    for li in range(4):
+                        for k in (['PRSS'] if li == 0 else lay[li - 1]):
+                            fields2[ti, li, k] = (base_[k] + 100 * li * (k == 'TEMP') + sc_[k] * np.sin(xx / 3. + ti + li) * np.cos(yy / 4. - li)).astype('f')
+                raw2, truth2 = R.arl_encode(times, 1.0, levels, ['PRSS'], lay, fields2, nx, ny)
+                path2 = os.path.join(tmp, 'arl_mixed.bin')
+                open(path2, 'wb').write(raw2)
+
+                def t_mixed(path2=path2, lay=lay, fields2=fields2, truth2=truth2, nt=nt):
+                    f = arlpackedbit(path2)
+                    for k in ('TEMP', 'UWND', 'RELH'):
+                        lis = [li for li in range(1, 4) if k in lay[li - 1]]
+                        if k not in f.variables or f.variables[k].shape[1] != len(lis):
+                            return 'variable %s: %s, it is defined on %d levels' % (k, 'missing' if k not in f.variables else 'shape %r' % (f.variables[k].shape,), len(lis))
+                        for ti in range(nt):
+                            for j, li in enumerate(lis):
+                                got = np.asarray(f.variables[k][ti, j], 'd')
+                                recon, nexp = truth2[ti, li, k]
+                                q = 2.0 ** (nexp - 7)
+                                if np.abs(got - np.asarray(fields2[ti, li, k], 'd')).max() > 1.5 * q * (1 + 1e-4) + np.abs(recon).max() * 1e-5:
+                                    return 'field %s time %d level %d: error %g exceeds the bound %g (read under the name of another variable?)' % (k, ti, li, np.abs(got - fields2[ti, li, k]).max(), q)
+                    return None
+                run.case('C20:arlpackedbit reads a file whose levels have different variable lists of equal length', (nt, ny, nx), t_mixed)
 
             def t_write(path=path, raw=raw):
                 from PseudoNetCDF.noaafiles._arl import writearlpackedbit
